@@ -41,7 +41,7 @@ func TestVerifC08MutKeys(t *testing.T) {
 	defer a.flush()
 	per := c08KeysPerType()
 	a.r.Bounds["keys_per_type"] = per
-	a.r.Bounds["xor_masks"] = fmt.Sprintf("%x", c08Masks())
+	a.r.Bounds["xor_masks"] = c08MaskBound
 	a.r.Bounds["edits"] = "every position x every mask, every truncation, trailing 00/ff/self; protobuf: drop, duplicate, every transposition, value exchange, re-framed value truncation/extension, non-minimal varints, unknown fields; thorough: every single-byte deletion and insertion"
 	a.r.Bounds["private_keys"] = "all keys of ed25519/secp256k1/ecdsa; rsa: key #0 only in the quick tier"
 	sampled := map[string]bool{}
@@ -66,6 +66,9 @@ func TestVerifC08MutKeys(t *testing.T) {
 			return func(m c08Mut) bool {
 				if a.over("public key mutations") {
 					return false
+				}
+				if !a.mine() {
+					return true
 				}
 				a.exec("pub/"+form, m.Data, true)
 				a.guard("unmarshal public key", func() {
@@ -100,10 +103,8 @@ func TestVerifC08MutKeys(t *testing.T) {
 				return true
 			}
 		}
-		if a.mine() {
-			c08AllMuts(k.PubBytes, nil, true, pubOracle("protobuf", crypto.UnmarshalPublicKey))
-		}
-		if a.mine() {
+		c08AllMuts(k.PubBytes, nil, true, pubOracle("protobuf", crypto.UnmarshalPublicKey))
+		{
 			raw, err := k.Pub.Raw()
 			if err != nil {
 				t.Fatalf("c08: Raw: %v", err)
@@ -119,6 +120,9 @@ func TestVerifC08MutKeys(t *testing.T) {
 			return func(m c08Mut) bool {
 				if a.over("private key mutations") {
 					return false
+				}
+				if !a.mine() {
+					return true
 				}
 				a.exec("priv/"+form, m.Data, true)
 				a.guard("unmarshal private key", func() {
@@ -154,10 +158,8 @@ func TestVerifC08MutKeys(t *testing.T) {
 				return true
 			}
 		}
-		if a.mine() {
-			c08AllMuts(k.PrivBytes, nil, true, privOracle("protobuf", crypto.UnmarshalPrivateKey))
-		}
-		if a.mine() {
+		c08AllMuts(k.PrivBytes, nil, true, privOracle("protobuf", crypto.UnmarshalPrivateKey))
+		{
 			raw, err := k.Priv.Raw()
 			if err != nil {
 				t.Fatalf("c08: Raw: %v", err)
@@ -172,7 +174,7 @@ func TestVerifC08MutIDs(t *testing.T) {
 	defer a.flush()
 	per := c08KeysPerType()
 	a.r.Bounds["keys_per_type"] = per
-	a.r.Bounds["xor_masks"] = fmt.Sprintf("%x", c08Masks())
+	a.r.Bounds["xor_masks"] = c08MaskBound
 	a.r.Bounds["forms"] = "binary (IDFromBytes), base58, CIDv1 base32 and base36 (Decode), JSON string; identity-multihash IDs over every protobuf-level edit of the marshalled key"
 	sampled := map[string]bool{}
 	for _, k := range c08Keys(t, per) {
@@ -183,6 +185,9 @@ func TestVerifC08MutIDs(t *testing.T) {
 			return func(m c08Mut) bool {
 				if a.over("peer ID mutations") {
 					return false
+				}
+				if !a.mine() {
+					return true
 				}
 				a.exec("id/"+form, m.Data, true)
 				a.guard("decode peer ID", func() {
@@ -215,31 +220,25 @@ func TestVerifC08MutIDs(t *testing.T) {
 			}
 		}
 		text := func(b []byte) (peer.ID, error) { return peer.Decode(string(b)) }
-		if a.mine() {
-			c08ByteMuts([]byte(k.ID), oracle("binary", peer.IDFromBytes))
-		}
-		if a.mine() {
-			c08ByteMuts([]byte(k.ID.String()), oracle("base58", text))
-		}
+		c08ByteMuts([]byte(k.ID), oracle("binary", peer.IDFromBytes))
+		c08ByteMuts([]byte(k.ID.String()), oracle("base58", text))
 		c := peer.ToCid(k.ID)
-		if a.mine() {
-			c08ByteMuts([]byte(c.String()), oracle("cid-base32", text))
-		}
-		if a.mine() {
+		c08ByteMuts([]byte(c.String()), oracle("cid-base32", text))
+		{
 			s, err := c.StringOfBase(mb.Base36)
 			if err != nil {
 				t.Fatalf("c08: StringOfBase: %v", err)
 			}
 			c08ByteMuts([]byte(s), oracle("cid-base36", text))
 		}
-		if a.mine() {
+		{
 			js, err := json.Marshal(k.ID)
 			if err != nil {
 				t.Fatalf("c08: MarshalJSON: %v", err)
 			}
 			c08ByteMuts(js, oracle("json", func(b []byte) (peer.ID, error) { var id peer.ID; err := json.Unmarshal(b, &id); return id, err }))
 		}
-		if a.mine() {
+		{
 			// IDs that embed an edited encoding of the key
 			wrap := oracle("identity-multihash-of-edited-key", peer.IDFromBytes)
 			c08StructMuts(k.PubBytes, nil, func(m c08Mut) bool {
@@ -347,7 +346,7 @@ func TestVerifC08MutEnvelopes(t *testing.T) {
 		per = 3
 	}
 	a.r.Bounds["keys_per_type"] = per
-	a.r.Bounds["xor_masks"] = fmt.Sprintf("%x", c08Masks())
+	a.r.Bounds["xor_masks"] = c08MaskBound
 	a.r.Bounds["artefacts"] = "signed peer record, relay reservation voucher, opaque test record - each sealed by each key"
 	a.r.Bounds["consumers"] = "ConsumeEnvelope(sealed domain), ConsumeTypedEnvelope(record of the sealed type), ConsumeEnvelope(2 foreign domains)"
 	a.r.Bounds["edits"] = "envelope bytes: every position x every mask, every truncation, trailing 00/ff/self; protobuf edits of the envelope, of the public key inside it and of the peer record / voucher inside it (and of the address entries inside the peer record), enclosing lengths recomputed; thorough: byte deletions and insertions"
